@@ -1,7 +1,7 @@
 (** C12 — token interface of the model for the correspondence check
     (same observations as harness/src/bin/c12.rs). *)
 From Coq Require Import List Arith ZArith NArith String Bool FMapPositive.
-From SV Require Import Common.Tok C12.Model.
+From SV Require Import Common.Tok C12.Model C12.HModel.
 Import ListNotations.
 Open Scope string_scope.
 Open Scope list_scope.
@@ -89,7 +89,8 @@ Definition kind_of (nm : string) : pkind :=
   else if nm =? "p2c" then KP2c else if nm =? "hrw" then KHrw else KMaglev.
 
 (** tokens -> operation of [Model.op] (plus the three read-only queries) *)
-Inductive cmd := CmdOp (o : op) | CmdSticky (c : nat) (sid : N) | CmdDump | CmdNop | CmdTable (c : nat) | CmdBad.
+Inductive cmd := CmdOp (o : op) | CmdSticky (c : nat) (sid : N) | CmdDump | CmdNop | CmdTable (c : nat) | CmdBad
+  | CmdServer (a : N) (k : N) | CmdHcConfig (c : nat) (cf : hcfg) | CmdHcRemove (c : nat) | CmdPump.
 
 Definition parse (op : list tok) : cmd :=
   match op with
@@ -155,6 +156,15 @@ Definition parse (op : list tok) : cmd :=
     else if name =? "sticky_conn" then
       match args with [TN c; TN sid; TN w] => CmdOp (OStickyConn (znat c) (zN sid) (zN w)) | _ => CmdBad end
     else if name =? "dump" then CmdDump
+    else if name =? "server" then
+      match args with [TN a; TN k] => CmdServer (zN a) (zN k) | _ => CmdBad end
+    else if name =? "hc_config" then
+      match args with
+      | [TN c; TN i; TN t; TN ht; TN ut; TN e] => CmdHcConfig (znat c) (mkHcfg (zN i) (zN t) (zN ht) (zN ut) (zN e))
+      | _ => CmdBad end
+    else if name =? "hc_remove" then
+      match args with [TN c] => CmdHcRemove (znat c) | _ => CmdBad end
+    else if name =? "pump" then CmdPump
     else if name =? "table" then
       match args with [TN c] => CmdTable (znat c) | _ => CmdBad end
     else if name =? "bb" then CmdNop      (* black-box run: nothing of the model is involved *)
@@ -213,20 +223,40 @@ Definition observe (s : state) (o : op) (s' : state) : list tok :=
   | _ => []
   end.
 
-Definition step (s : state) (t : list tok) : state * list tok :=
-  match parse t with
-  | CmdOp o => let s' := apply_op s o in (s', observe s o s')
-  | CmdSticky c sid => (s, [match find_sticky s c sid with Some h => tnat h | None => TS "none" end])
-  | CmdDump => (s, dump s)
-  | CmdNop => (s, [])
-  | CmdTable c => (s, [TB (table_bytes s c)])
-  | CmdBad => (s, [TS "badop"])
+Fixpoint insert_probe (x : nat * N * N) (l : list (nat * N * N)) : list (nat * N * N) :=
+  match l with
+  | [] => [x]
+  | y :: t =>
+    let '(c1, i1, a1) := x in let '(c2, i2, a2) := y in
+    if (c1 <? c2)%nat || ((c1 =? c2)%nat && ((i1 <? i2) || ((i1 =? i2) && (a1 <=? a2))))%N
+    then x :: l else y :: insert_probe x t
   end.
 
-Fixpoint run_from (s : state) (ops : list (list tok)) : list (list tok) :=
+Definition inflight_toks (h : hc) : list tok :=
+  let l := fold_right insert_probe [] (map (fun p => (p_c p, p_id p, p_addr p)) (hc_inflight h)) in
+  tnat (List.length l) :: flat_map (fun x => let '(c, i, a) := x in [tnat c; tN i; tN a]) l.
+
+Definition step (sh : state * hc) (t : list tok) : (state * hc) * list tok :=
+  let '(s, h) := sh in
+  match parse t with
+  | CmdOp o => let s' := apply_op s o in ((s', h), observe s o s')
+  | CmdSticky c sid => (sh, [match find_sticky s c sid with Some hd => tnat hd | None => TS "none" end])
+  | CmdDump => (sh, dump s)
+  | CmdNop => (sh, [])
+  | CmdTable c => (sh, [TB (table_bytes s c)])
+  | CmdServer a k => ((s, hc_set_kind h a k), [])
+  | CmdHcConfig c cf => ((s, hc_set_config h c cf), [])
+  | CmdHcRemove c => let '(h', s') := hc_remove h s c in ((s', h'), [])
+  | CmdPump =>
+    if hc_made h then let '(h', s') := pump h s in ((s', h'), inflight_toks h')
+    else (sh, [])       (* the driver has no checker yet *)
+  | CmdBad => (sh, [TS "badop"])
+  end.
+
+Fixpoint run_from (sh : state * hc) (ops : list (list tok)) : list (list tok) :=
   match ops with
   | [] => []
-  | op :: ops' => let '(s', o) := step s op in o :: run_from s' ops'
+  | op :: ops' => let '(sh', o) := step sh op in o :: run_from sh' ops'
   end.
 
-Definition run_case (ops : list (list tok)) : list (list tok) := run_from init ops.
+Definition run_case (ops : list (list tok)) : list (list tok) := run_from (init, hc_init) ops.
